@@ -61,7 +61,15 @@ fn bodiless(case: &Case) -> bool {
     case.method == "HEAD" || case.origin.status == 204 || case.origin.status == 304
 }
 
+thread_local! {
+    /// C09 feeds arbitrary origin byte streams through the same runner
+    pub static ORIGIN_OVERRIDE: std::cell::RefCell<Option<Vec<u8>>> = const { std::cell::RefCell::new(None) };
+}
+
 pub fn origin_bytes(case: &Case) -> Vec<u8> {
+    if let Some(o) = ORIGIN_OVERRIDE.with(|o| o.borrow().clone()) {
+        return o;
+    }
     let o = &case.origin;
     let mut v = vec![];
     for i in &o.interim {
